@@ -102,6 +102,17 @@ fn n_mbi_getters_many_tags() {
                 with_region(&body, |bi, base| {
                     let walk: Vec<(usize, u32)> = bi.tags().map(|t| (t as *const _ as *const u8 as usize - base, u32::from(t.header().typ))).collect();
                     assert_eq!(walk.len(), k + if present { 3 } else { 0 } + 1, "walk length (kind {typ}, {k} fillers)");
+                    for j in [0usize, 1, 2, walk.len() / 2, walk.len()] {
+                        let mut it = bi.tags();
+                        for _ in 0..j.min(walk.len()) {
+                            it.next();
+                        }
+                        let rest_clone: Vec<usize> = it.clone().map(|t| t as *const _ as *const u8 as usize - base).collect();
+                        let rest: Vec<usize> = it.map(|t| t as *const _ as *const u8 as usize - base).collect();
+                        let want_rest: Vec<usize> = walk[j.min(walk.len())..].iter().map(|(o, _)| *o).collect();
+                        assert_eq!(rest, want_rest, "iterator advanced by {j} continues the walk");
+                        assert_eq!(rest_clone, want_rest, "clone taken after {j} steps continues the same walk");
+                    }
                     let bs_present = walk.iter().any(|(_, t)| *t == 18);
                     for &(t2, _) in KINDS.iter() {
                         let mut want = walk.iter().find(|(_, t)| *t == t2).map(|(o, _)| base + *o);
